@@ -494,6 +494,7 @@ def main():
             stage_eval += res["evaluations"]
             merged["inconclusive"] += res.get("inconclusive", 0)
             merged["nontrivial"].update(res["nontrivial_hashes"])
+            merged["nontrivial_overflow"] = merged.get("nontrivial_overflow", 0) + res.get("nontrivial_overflow", 0)
             for k, v in res["classes"].items():
                 merged["classes"][k] = merged["classes"].get(k, 0) + v
             for k, v in res.get("extra", {}).items():
@@ -516,7 +517,7 @@ def main():
     wall = time.time() - t_start
     cov = {
         "evaluations": merged["evaluations"],
-        "distinct_nontrivial": len(merged["nontrivial"]),
+        "distinct_nontrivial": len(merged["nontrivial"]) + merged.get("nontrivial_overflow", 0),
         "rule": cfg["rule"],
         "samples": merged["samples"][:6],
         "classes": merged["classes"],
@@ -541,12 +542,12 @@ def main():
     if violations:
         return 1
     floor = cfg.get("floor", {}).get(tier, 2)
-    if len(merged["nontrivial"]) < floor:
+    if len(merged["nontrivial"]) + merged.get("nontrivial_overflow", 0) < floor:
         print("BROKEN: health check — only %d distinct non-trivial cases (floor %d); the generator is not reaching the property" %
               (len(merged["nontrivial"]), floor))
         return 2
     print("OK property=%s tier=%s evaluations=%d distinct_nontrivial=%d wall=%.1fs" %
-          (prop, tier, merged["evaluations"], len(merged["nontrivial"]), wall))
+          (prop, tier, merged["evaluations"], len(merged["nontrivial"]) + merged.get("nontrivial_overflow", 0), wall))
     return 0
 
 
